@@ -31,6 +31,7 @@ type vhWorld struct {
 
 type vhWorldOpts struct {
 	secondEntity bool // local entity [2] with a second LoadControl server
+	secondNested bool // ... at address [1,1] (a sub-entity of [1]) instead of [2]
 	subEntity    bool // peers announce sub-entity [1,1] as well
 	onlyA        bool
 	f1ReadOnly   bool
@@ -116,7 +117,11 @@ func vhNewWorld(o vhWorldOpts) *vhWorld {
 	w.F3 = w.E1.GetOrAddFeature(model.FeatureTypeTypeLoadControl, model.RoleTypeClient)
 	w.L.AddEntity(w.E1)
 	if o.secondEntity {
-		w.E2 = NewEntityLocal(w.L, model.EntityTypeTypeCEM, NewAddressEntityType([]uint{2}), 0)
+		a2 := []uint{2}
+		if o.secondNested {
+			a2 = []uint{1, 1}
+		}
+		w.E2 = NewEntityLocal(w.L, model.EntityTypeTypeCEM, NewAddressEntityType(a2), 0)
 		w.F4 = w.E2.GetOrAddFeature(model.FeatureTypeTypeLoadControl, model.RoleTypeServer)
 		w.F4.AddFunctionType(model.FunctionTypeLoadControlLimitListData, true, !o.f4ReadOnly)
 		w.L.AddEntity(w.E2)
